@@ -225,20 +225,22 @@ def pwOk : Bool :=
   | some p, some b => p > b
   | _, _ => false
 
+mutual
+/-- an operand token as a tree: a symbol, the nested list [s, "^", e], the bare numerator, or
+    a grouped sub-list (parsed recursively); `none` for operators and for failing sub-lists -/
+def tokVal : Tok → Option Tree
+  | .sym s => some (.leaf s)
+  | .pw s e => if pwOk then some (.pw s e) else none
+  | .one => some .one
+  | .grp g => twoStackAux g [] []
+  | .mul => none
+  | .div => none
 /-- `__construct_expression_tree_with_list`; stacks have their top at the head -/
 def twoStackAux : List Tok → List Tree → List Bool → Option Tree
   | [], operands, operators =>
     match finish operators.length operands operators with
     | some ops => ops.getLast?          -- `operand_stack[0]`: the bottom of the stack
     | none => none
-  | .grp g :: ts, operands, operators =>
-    match twoStackAux g [] [] with
-    | some t => twoStackAux ts (t :: operands) operators
-    | none => none
-  | .pw s e :: ts, operands, operators =>
-    if pwOk then twoStackAux ts (.pw s e :: operands) operators else none
-  | .sym s :: ts, operands, operators => twoStackAux ts (.leaf s :: operands) operators
-  | .one :: ts, operands, operators => twoStackAux ts (.one :: operands) operators
   | .mul :: ts, operands, operators =>
     match opStep true operands operators with
     | some (a, b) => twoStackAux ts a b
@@ -247,6 +249,11 @@ def twoStackAux : List Tok → List Tree → List Bool → Option Tree
     match opStep false operands operators with
     | some (a, b) => twoStackAux ts a b
     | none => none
+  | t :: ts, operands, operators =>
+    match tokVal t with
+    | some v => twoStackAux ts (v :: operands) operators
+    | none => none
+end
 
 def twoStack (ts : List Tok) : Option Tree := twoStackAux ts [] []
 
@@ -304,17 +311,19 @@ inductive UTok
 
 mutual
 /-- apply the grouping pass at every level (what the recursive tokeniser does) -/
-def groupAll : List UTok → List Tok
-  | ts => group (conv ts)
+def convTok : UTok → Tok
+  | .sym s => .sym s
+  | .pw s e => .pw s e
+  | .mul => .mul
+  | .div => .div
+  | .one => .one
+  | .par ts => .grp (group (conv ts))
 def conv : List UTok → List Tok
   | [] => []
-  | .sym s :: r => .sym s :: conv r
-  | .pw s e :: r => .pw s e :: conv r
-  | .mul :: r => .mul :: conv r
-  | .div :: r => .div :: conv r
-  | .one :: r => .one :: conv r
-  | .par ts :: r => .grp (groupAll ts) :: conv r
+  | t :: r => convTok t :: conv r
 end
+
+def groupAll (ts : List UTok) : List Tok := group (conv ts)
 
 /-- a factor already read, or an explicit operator -/
 inductive Item
